@@ -220,6 +220,25 @@ func checkNoEscalation(c *mon.Ctx, t *ref.VersionTraits, creators []string, cur,
 	if t.PLNotifChecks {
 		for _, k := range keys(o.notifs, n.notifs) {
 			ov, nv := o.notif(k), n.notif(k)
+			if k != "room" {
+				// only "room" has a default: any other key has the level its entry gives it and none without one, so
+				// an entry that appears is a level set, and one that disappears a level removed
+				_, had := o.notifs[k]
+				_, has := n.notifs[k]
+				if !had && has && nv > sl {
+					c.Count("changed|notifications")
+					fail("notifications", "notifications["+k+"] (entry added)", ov, nv)
+					continue
+				}
+				if had && !has && ov > sl {
+					c.Count("changed|notifications")
+					fail("notifications:was-above-sender", "notifications["+k+"] (entry removed)", ov, nv)
+					continue
+				}
+				if had != has {
+					continue
+				}
+			}
 			if ov == nv {
 				continue
 			}
